@@ -82,6 +82,10 @@ def flatten(dump, prefix='', out=None):
     if out is None:
         out = {}
     for c in dump.get('c', []):
+        if 'n' not in c:
+            # structural alarm raised by the dumper itself (child with a foreign parent pointer, child list that does not end)
+            out[(prefix + ' '.join(sorted(c)), '!')] = {'sp': 0, 'pr': 0, 'v': 'corrupt child list', 'hk': 0} if True else 'corrupt child list'
+            continue
         p = prefix + c['n']
         k = c['t']
         if prefix == '' and c['n'] == 'logs':
